@@ -64,6 +64,7 @@ type replica struct {
 	confState pb.ConfState
 	selfLearn bool // learner in its own applied configuration
 	selfVoter bool
+	genLearn  bool // learner view at the time the current Ready's messages were generated
 	curHS     pb.HardState
 	state     raft.StateType
 	incarn    int
@@ -72,6 +73,9 @@ type replica struct {
 	// deferred conf change apply in flight (leader path)
 	deferred chan struct{}
 	maxApplied uint64 // over all incarnations
+	// production: a replica that applied its own removal blocks its apply loop
+	// and destroys itself one second (10 ticks) later; raft keeps running
+	removing int
 }
 
 type flight struct {
@@ -233,6 +237,22 @@ func (s *sim) restart(r *replica) {
 	s.c.Log("restart", "r%d hs=%v snap=%d ents=%d", r.id, r.dHS, r.dSnap.Metadata.Index, len(ents))
 }
 
+// tickOf delivers one tick, counting down the self-destruct of a removed replica.
+func (s *sim) tickOf(r *replica) {
+	if r.removing > 0 {
+		r.removing--
+		if r.removing == 0 {
+			r.up = false
+			r.gone = true
+			r.n.Stop()
+			s.c.Log("destroyed", "r%d", r.id)
+			return
+		}
+	}
+	r.n.Tick()
+	s.process(r)
+}
+
 func (s *sim) crash(r *replica, where string) {
 	if !r.up {
 		return
@@ -312,7 +332,7 @@ func (s *sim) send(from *replica, msgs []pb.Message) {
 		}
 		s.observeSent(from, &m)
 		s.net = append(s.net, flight{m: m})
-		s.c.Log("send", "%d->%d %v t=%d i=%d lt=%d c=%d n=%d rej=%v", m.From, m.To, m.Type, m.Term, m.Index, m.LogTerm, m.Commit, len(m.Entries), m.Reject)
+		s.c.Log("send", "%d->%d %v t=%d i=%d lt=%d c=%d n=%d rej=%v s=%d", m.From, m.To, m.Type, m.Term, m.Index, m.LogTerm, m.Commit, len(m.Entries), m.Reject, m.Snapshot.Metadata.Index)
 	}
 }
 
@@ -325,16 +345,16 @@ func (s *sim) observeSent(from *replica, m *pb.Message) {
 				s.v("C01", "double-vote", "replica %d granted its vote in term %d to %d and to %d", m.From, m.Term, prev, m.To)
 			}
 			s.votes[k] = m.To
-			if from.selfLearn {
+			if from.genLearn {
 				s.v("C01", "learner-vote", "learner %d granted a vote in term %d to %d", m.From, m.Term, m.To)
 			}
 		}
 	case pb.MsgPreVoteResp:
-		if !m.Reject && from.selfLearn {
+		if !m.Reject && from.genLearn {
 			s.v("C01", "learner-vote", "learner %d granted a pre-vote (term %d) to %d", m.From, m.Term, m.To)
 		}
 	case pb.MsgVote, pb.MsgPreVote:
-		if from.selfLearn {
+		if from.genLearn {
 			s.v("C01", "learner-campaign", "learner %d sent %v term %d", m.From, m.Type, m.Term)
 		}
 	case pb.MsgApp, pb.MsgHeartbeat, pb.MsgSnap, pb.MsgTimeoutNow:
@@ -357,7 +377,7 @@ func (s *sim) actsAsLeader(r *replica, term uint64, how string) {
 			s.c.Probe("leader_change_with_traffic")
 		}
 	}
-	if r.selfLearn {
+	if r.genLearn {
 		s.v("C01", "learner-leads", "learner %d acted as leader in term %d (%s)", r.id, term, how)
 	}
 }
@@ -367,6 +387,9 @@ func (s *sim) actsAsLeader(r *replica, term uint64, how string) {
 func (s *sim) process(r *replica) {
 	for iter := 0; iter < 64 && r.up && !s.dead; iter++ {
 		more, busy := true, false
+		if r.removing > 0 {
+			more = false
+		}
 		if s.faultsOn && s.t.Bool(s.cfg.backPressPm) {
 			more = s.t.Bool(500)
 			busy = !more || s.t.Bool(300)
@@ -390,6 +413,10 @@ func (s *sim) process(r *replica) {
 
 func (s *sim) handleReady(r *replica, rd *raft.Ready) {
 	c := s.c
+	// messages of a Ready are generated inside StepNode, before the Ready's
+	// committed entries are applied: judge them by the configuration the
+	// replica had applied at that time
+	r.genLearn = r.selfLearn
 	newLeader := false
 	if !raft.IsEmptyHardState(rd.HardState) {
 		if rd.HardState.Term < r.curHS.Term {
@@ -618,6 +645,11 @@ func (s *sim) apply(r *replica, rd *raft.Ready, newLeader bool) {
 			if s.dead || !r.up {
 				return
 			}
+			if r.removing > 0 {
+				// the apply loop blocks here for good; later entries of this
+				// Ready are never applied by this incarnation
+				return
+			}
 		}
 	}
 	if len(rd.CommittedEntries) > 0 {
@@ -674,9 +706,7 @@ func (s *sim) applyConf(r *replica, cc pb.ConfChange, index uint64, deferIt bool
 		s.removedIDs[cc.ReplicaID] = true
 		s.c.Probe("member_removed")
 		if cc.ReplicaID == r.id {
-			// production stops a replica that applied its own removal
-			s.crash(r, "removed_self")
-			r.gone = true
+			r.removing = 10
 		}
 	}
 }
